@@ -12,7 +12,7 @@ if "--jobs" in args:
     i = args.index("--jobs"); jobs = int(args[i + 1]); del args[i:i + 2]
 allp = "--all-checks" in args
 if allp: args.remove("--all-checks")
-seeds = sorted(d for d in glob.glob("/verif/seeded/*") if os.path.isdir(d) and (not args or any(os.path.basename(d).startswith(a) for a in args)))
+seeds = sorted(d for d in glob.glob("/verif/seeded/*") if os.path.isfile(os.path.join(d, "meta.json")) and (not args or any(os.path.basename(d).startswith(a) for a in args)))
 have = {os.path.basename(p)[:-3].upper() for p in glob.glob("/verif/vf/props/c[0-9][0-9].py")}
 def sh(*a, **k):
     return subprocess.run(a, capture_output=True, text=True, **k)
